@@ -143,6 +143,25 @@ func (g *Gen) callInner(in ssa.Instruction, c *ssa.CallCommon, rt types.Type) Va
 	}
 	// contract of a repository function or an extern contract
 	if fc, pc, params, pkg := g.w.lookupContract(g, c, name); fc != nil {
+		if g.fc != nil && g.fc.CallSites != nil {
+			// the caller may state what it hands to this call (`callsite F#N requires`): checked in addition to the
+			// callee's own precondition; the callee's contract, not the callsite clause, describes the effect
+			site := fmt.Sprintf("%s#%d", name, g.callCount[name])
+			for k, cs := range g.fc.CallSites {
+				if siteMatches(site, k) && len(cs.Requires) > 0 {
+					g.callSiteRequires(cs, site, c, pos)
+				}
+			}
+		}
+		if mc, ok := c.Value.(*ssa.MakeClosure); ok {
+			// the closure's contract names its captured variables: bind them to the captured addresses
+			saved := g.freeVars
+			g.freeVars = map[string]Val{}
+			for i, fv := range mc.Fn.(*ssa.Function).FreeVars {
+				g.freeVars[fv.Name()] = g.val(mc.Bindings[i])
+			}
+			defer func() { g.freeVars = saved }()
+		}
 		return g.applyContract(fc, pc, pkg, params, args, rt, name, pos)
 	}
 	if g.fc != nil && g.fc.CallSites != nil {
@@ -175,7 +194,15 @@ func (g *Gen) callInner(in ssa.Instruction, c *ssa.CallCommon, rt types.Type) Va
 		g.havocEverything(name)
 		return result()
 	}
-	panic(unsupported("call to %s has no contract (add a contract, or `assume pure`/`assume havoc`)", name))
+	if os.Getenv("GOVC_STRICT_CALLS") != "" {
+		panic(unsupported("call to %s has no contract (add a contract, or `assume pure`/`assume havoc`)", name))
+	}
+	// A callee without contract (typically: the code changed and now calls something else): over-approximate it -
+	// it may change every heap location not protected by the frame and returns anything. Obligations that depend
+	// on what it does then fail and are reported; obligations that do not, still hold.
+	g.uncontracted = append(g.uncontracted, name)
+	g.havocEverything(name) // (the frame is then checked, and fails where restricted, at the function's returns)
+	return result()
 }
 
 func (g *Gen) builtin(name string, c *ssa.CallCommon, args []Val, rt types.Type, pos token.Pos) Val {
@@ -286,13 +313,21 @@ func (g *Gen) appendOp(s, t Val, rt types.Type, pos token.Pos) Val {
 	if len(names) > 0 {
 		save := g.curReach
 		g.curReach = and(save, fits, not(eq(tLen, z)))
-		g.frameCheck(Ptr{Prefix: "[]" + g.typeName(et), Idx: []string{s.Arr, z}, T: et}, pos)
+		g.frameCheckSpan("[]"+g.typeName(et), et, s.Arr, g.elemIdx(s.Off, s.Len), g.elemIdx(s.Off, g.idxSub(n, g.idxConst(1))), pos)
 		g.curReach = save
 	}
 	k, small := g.smallConstLen(tLen)
+	noContent := g.fc != nil && contains(g.fc.NoContent, "[]"+g.typeName(et))
+	if noContent {
+		g.addAssumption("contents of []" + g.typeName(et) + " slices are not tracked in " + g.fc.Name + " (only lengths): appended elements become arbitrary (sound over-approximation)")
+	}
 	for i, hn := range names {
 		E := g.heapGet(g.heap, hn, sorts[i])
 		elemSort := "(Array " + g.idxSort() + " " + leafSorts[i] + ")"
+		if noContent {
+			g.heapSet(g.heap, hn, sorts[i], "(store "+E+" "+resArr+" "+g.fresh("apparrv", elemSort)+")")
+			continue
+		}
 		oldDst := g.define("appold", elemSort, sel(E, s.Arr))
 		var newA string
 		if small && strSrc == "" {
@@ -376,10 +411,32 @@ func (g *Gen) copyOp(dst, src Val, rt types.Type, pos token.Pos) Val {
 	}
 	n := g.define("copyn", g.idxSort(), ite(g.idxLe(dst.Len, srcLen), dst.Len, srcLen))
 	z := g.idxConst(0)
+	if dst.P != nil {
+		// destination is arr[:] of a small array embedded in a struct (see slice): element-wise conditional stores
+		at := dst.P.T.Underlying().(*types.Array)
+		if src.K != kSlice {
+			panic(unsupported("copy from string into an embedded array"))
+		}
+		_, ssorts, _ := g.elemHeaps(et)
+		snames, _, _ := g.elemHeaps(et)
+		if len(snames) != 1 {
+			panic(unsupported("copy into an embedded array of composite elements"))
+		}
+		E := g.heapGet(g.heap, snames[0], ssorts[0])
+		g.frameCheck(Ptr{Prefix: dst.P.Prefix, Idx: append(append([]string{}, dst.P.Idx...), z), T: et}, pos)
+		for j := int64(0); j < at.Len(); j++ {
+			jc := g.idxConst(j)
+			ep := Ptr{Prefix: dst.P.Prefix, Idx: append(append([]string{}, dst.P.Idx...), jc), T: et}
+			old := g.load(g.heap, ep)
+			nv := ite(g.idxLt(jc, n), sel(E, src.Arr, g.elemIdx(src.Off, jc)), old.S)
+			g.store(g.heap, ep, sv(et, nv))
+		}
+		return sv(rt, n)
+	}
 	names, sorts, leafSorts := g.elemHeaps(et)
 	save := g.curReach
 	g.curReach = and(save, not(eq(n, z)))
-	g.frameCheck(Ptr{Prefix: "[]" + g.typeName(et), Idx: []string{dst.Arr, z}, T: et}, pos)
+	g.frameCheckSpan("[]"+g.typeName(et), et, dst.Arr, dst.Off, g.elemIdx(dst.Off, g.idxSub(n, g.idxConst(1))), pos)
 	g.curReach = save
 	for i, hn := range names {
 		E := g.heapGet(g.heap, hn, sorts[i])
@@ -505,6 +562,19 @@ type modLoc struct {
 	sorts []string
 	base  string // reference whose entry in each heap may change
 	all   bool   // whole heap may change (coarse)
+	off   string // s[*] of a slice: only positions off .. off+n-1 of the backing array may change
+	n     string
+}
+
+// rangeFrame: `modifies s[*]` of a slice leaves the rest of the backing array alone.
+func (g *Gen) rangeFrame(ml modLoc, nh, cur string) {
+	if ml.off == "" {
+		return
+	}
+	q := g.qvar()
+	outside := or(g.idxLt(q, ml.off), g.idxLe(g.idxAdd(ml.off, ml.n), q))
+	g.emit(evAssert, fmt.Sprintf("(assert (forall ((%s %s)) (! (=> %s (= (select (select %s %s) %s) (select (select %s %s) %s))) :pattern ((select (select %s %s) %s)) :qid slice_frame)))",
+		q, g.idxSort(), outside, nh, ml.base, q, cur, ml.base, q, nh, ml.base, q))
 }
 
 func (g *Gen) evalModLoc(text string, env *Env) []modLoc {
@@ -521,7 +591,11 @@ func (g *Gen) evalModLoc(text string, env *Env) []modLoc {
 		return []modLoc{{heaps: []string{n}, sorts: []string{srt}, all: true}}
 	}
 	elems := false
-	if strings.HasSuffix(text, "[*]") {
+	wholeArray := false // s[**]: every position of the slice's backing array (also beyond len: spare capacity)
+	if strings.HasSuffix(text, "[**]") {
+		elems, wholeArray = true, true
+		text = strings.TrimSuffix(text, "[**]")
+	} else if strings.HasSuffix(text, "[*]") {
 		elems = true
 		text = strings.TrimSuffix(text, "[*]")
 	}
@@ -551,7 +625,10 @@ func (g *Gen) evalModLoc(text string, env *Env) []modLoc {
 		if v.K == kSlice {
 			et := v.T.Underlying().(*types.Slice).Elem()
 			names, sorts, _ := g.elemHeaps(et)
-			return []modLoc{{heaps: names, sorts: sorts, base: v.Arr}}
+			if wholeArray {
+				return []modLoc{{heaps: names, sorts: sorts, base: v.Arr}}
+			}
+			return []modLoc{{heaps: names, sorts: sorts, base: v.Arr, off: v.Off, n: v.Len}}
 		}
 		if v.K == kScalar {
 			if mt, ok := v.T.Underlying().(*types.Map); ok {
@@ -587,7 +664,12 @@ func (g *Gen) evalModLoc(text string, env *Env) []modLoc {
 			}
 		}
 	}
-	p := g.ptrOf(bv)
+	var p Ptr
+	if ap, ok := g.evalAddr(sel.X, env); ok {
+		p = ap // x.inner.f : a field of a struct-valued field
+	} else {
+		p = g.ptrOf(bv)
+	}
 	st, ok := p.T.Underlying().(*types.Struct)
 	if !ok {
 		panic(contractErr("modifies %s: not a struct", text))
@@ -615,6 +697,64 @@ func (g *Gen) evalModLoc(text string, env *Env) []modLoc {
 		return []modLoc{ml}
 	}
 	panic(contractErr("modifies %s: no such field", text))
+}
+
+// evalAddr: the location denoted by `x.f` when f is a struct-valued (embedded by value) field of the object x
+// points to; lets contracts reach fields and ghost fields of nested structs (c.closeCode.val).
+func (g *Gen) evalAddr(e Expr, env *Env) (Ptr, bool) {
+	x, ok := e.(*ESel)
+	if !ok || strings.HasPrefix(x.Name, "#") {
+		return Ptr{}, false
+	}
+	if id, isId := x.X.(*EIdent); isId {
+		_, isVar := env.vars[id.Name]
+		_, isFree := g.freeVars[id.Name]
+		isLocal := false
+		if !isVar && !isFree && env.resolve != nil {
+			_, isLocal = g.resolveIn(env, id.Name)
+		}
+		if !isVar && !isFree && !isLocal {
+			return Ptr{}, false // a package name, a global, ...
+		}
+	}
+	var base Ptr
+	if b, ok := g.evalAddr(x.X, env); ok {
+		base = b
+	} else {
+		if _, isId := x.X.(*EIdent); !isId {
+			if _, isSel := x.X.(*ESel); !isSel {
+				return Ptr{}, false
+			}
+		}
+		v := g.eval(x.X, env)
+		switch {
+		case v.K == kPtr:
+			base = *v.P
+		case v.K == kScalar && v.T != nil:
+			pt, isPtr := v.T.Underlying().(*types.Pointer)
+			if !isPtr {
+				return Ptr{}, false
+			}
+			if _, isStruct := pt.Elem().Underlying().(*types.Struct); !isStruct {
+				return Ptr{}, false
+			}
+			base = g.ptrTo(v.S, pt.Elem())
+		default:
+			return Ptr{}, false
+		}
+	}
+	st, ok := base.T.Underlying().(*types.Struct)
+	if !ok {
+		return Ptr{}, false
+	}
+	for i := 0; i < st.NumFields(); i++ {
+		if st.Field(i).Name() == x.Name {
+			if _, inner := st.Field(i).Type().Underlying().(*types.Struct); inner {
+				return Ptr{Prefix: base.Prefix + "." + x.Name, Idx: base.Idx, T: st.Field(i).Type()}, true
+			}
+		}
+	}
+	return Ptr{}, false
 }
 
 func (g *Gen) evalModifies() {
@@ -648,13 +788,32 @@ func (g *Gen) frameCheck(p Ptr, pos token.Pos) {
 				if ml.all {
 					return
 				}
-				allowed = append(allowed, eq(ref, ml.base))
+				if ml.off != "" && len(p.Idx) >= 2 {
+					// s[*] of a slice permits only the positions the slice covers (callers assume the rest of the
+					// backing array unchanged: rangeFrame)
+					i := p.Idx[1]
+					allowed = append(allowed, and(eq(ref, ml.base), g.idxLe(ml.off, i), g.idxLt(i, g.idxAdd(ml.off, ml.n))))
+				} else {
+					allowed = append(allowed, eq(ref, ml.base))
+				}
 			}
 		}
 	}
 	goal := or(allowed...)
 	// cheap syntactic discharge: writes to objects allocated in this activation
 	g.oblig("frame", g.srcText(pos), goal, "write is permitted by the modifies clause (or the object is fresh): heap "+hn, pos, true)
+}
+
+// frameCheckSpan: a write to positions first..last of backing array arr. The last position is only checked when
+// some permission of this function is a slice range (otherwise permissions are per array and one check suffices).
+func (g *Gen) frameCheckSpan(prefix string, et types.Type, arr, first, last string, pos token.Pos) {
+	g.frameCheck(Ptr{Prefix: prefix, Idx: []string{arr, first}, T: et}, pos)
+	for _, ml := range g.modLocs {
+		if ml.off != "" {
+			g.frameCheck(Ptr{Prefix: prefix, Idx: []string{arr, last}, T: et}, pos)
+			return
+		}
+	}
 }
 
 func (g *Gen) frameCheckAll(pos token.Pos, callee string) {
@@ -724,7 +883,7 @@ func (g *Gen) calleeWrites(in ssa.CallInstruction) (map[string]string, bool) {
 	if g.fc != nil && g.isListed(g.fc.Havoc, name) {
 		return res, true
 	}
-	return res, false // an uncontracted callee is reported when the call is executed
+	return res, true // an uncontracted callee may write anything (see callInner)
 }
 
 func (g *Gen) evalModLocStatic(text string, env *Env) (res []modLoc) {
@@ -799,7 +958,9 @@ func (g *Gen) applyContract(fc *FuncContract, pc *PkgContracts, pkg *types.Packa
 	for i, p := range params {
 		a := args[i]
 		if a.K == kPtr {
-			panic(unsupported("interior pointer passed to contracted callee %s", name))
+			// an interior pointer (&x.f): the callee's contract reads and writes through it with the same static path
+			env.vars[p.name] = a
+			continue
 		}
 		env.vars[p.name] = g.coerce(a, p.typ)
 	}
@@ -831,6 +992,7 @@ func (g *Gen) applyContract(fc *FuncContract, pc *PkgContracts, pkg *types.Packa
 				nh := g.freshHeap("H:", hn, ml.sorts[i])
 				if !ml.all {
 					g.emit(evAssert, "(assert (= "+nh+" (store "+cur+" "+ml.base+" (select "+nh+" "+ml.base+"))))")
+					g.rangeFrame(ml, nh, cur)
 				}
 				g.heap.m[hn] = nh
 			}
@@ -903,6 +1065,26 @@ func (g *Gen) applyContract(fc *FuncContract, pc *PkgContracts, pkg *types.Packa
 	return res
 }
 
+// callSiteRequires: obligations `callsite F#N requires ...` of the caller, evaluated in the state just before the call
+// with the actual arguments bound to arg0, arg1, ...
+func (g *Gen) callSiteRequires(cs *CallSiteSpec, site string, c *ssa.CallCommon, pos token.Pos) {
+	pre := g.heap.clone()
+	env := g.localEnv()
+	env.heap = pre
+	env.pre = pre
+	var as []ssa.Value
+	if c.IsInvoke() {
+		as = append(as, c.Value)
+	}
+	as = append(as, c.Args...)
+	for i, a := range as {
+		env.vars[fmt.Sprintf("arg%d", i)] = g.val(a)
+	}
+	for i, cl := range cs.Requires {
+		g.oblig("call-pre", site+"."+clauseName(cl, i), g.evalBool(cl.Expr, env), cl.Src, pos, true)
+	}
+}
+
 // applyCallSite: the effect of this one call is described (assumed) in the caller's own contract.
 func (g *Gen) applyCallSite(cs *CallSiteSpec, site string, c *ssa.CallCommon, rt types.Type, pos token.Pos) Val {
 	why := cs.Why
@@ -958,6 +1140,7 @@ func (g *Gen) applyCallSite(cs *CallSiteSpec, site string, c *ssa.CallCommon, rt
 				nh := g.freshHeap("H:", hn, ml.sorts[i])
 				if !ml.all {
 					g.emit(evAssert, "(assert (= "+nh+" (store "+cur+" "+ml.base+" (select "+nh+" "+ml.base+"))))")
+					g.rangeFrame(ml, nh, cur)
 				}
 				g.heap.m[hn] = nh
 			}
@@ -1005,7 +1188,15 @@ func (g *Gen) frameCheckHeap(hn string, ml modLoc, pos token.Pos, callee string)
 					return
 				}
 				if !ml.all {
-					allowed = append(allowed, eq(ml.base, mine.base))
+					if mine.off != "" {
+						// my own permission is a slice range: the callee's must be a range inside it (or empty)
+						if ml.off != "" {
+							allowed = append(allowed, and(eq(ml.base, mine.base), or(eq(ml.n, g.idxConst(0)),
+								and(g.idxLe(mine.off, ml.off), g.idxLe(g.idxAdd(ml.off, ml.n), g.idxAdd(mine.off, mine.n))))))
+						}
+					} else {
+						allowed = append(allowed, eq(ml.base, mine.base))
+					}
 				}
 			}
 		}
